@@ -189,6 +189,28 @@ find_te("TeC5", 89, 5, False, "a=5 (square), d non-square: complete law")
 find_te("TeN", 103, -1, False, "a=-1 non-square (p=3 mod 4): incomplete law", )
 find_te("TeN2", 107, 2, True, "a non-square, d square: incomplete law")
 find_te("TeBig", 1013, 1, False, "a=1, d non-square, ~1000 points: complete", rmin=50)
+# b = 0: (0,0) is a genuine point of order two whose coordinates coincide with the placeholder coordinates that the
+# affine identity stores
+def find_sw_b0(name, p, note, rmin=11):
+    sq = sqrt_all(p)
+    for a in range(1, p):
+        pts = sw_points(p, a, 0, sq)
+        so = split_order(len(pts))
+        if so is None:
+            continue
+        h, r = so
+        if r < rmin:
+            continue
+        add = lambda P, Q: sw_add(P, Q, p, a)
+        for P in pts[1:]:
+            G = mul(h, P, add)
+            if G is not None:
+                assert mul(r, G, add) is None
+                curves_sw.append((name, p, a, 0, h, r, G, note + f"; #E={len(pts)}"))
+                return
+    raise SystemExit(f"no curve for {name}")
+find_sw_b0("SwB0", 103, "b=0: (0,0) is a 2-torsion point")
+find_sw_b0("SwB0b", 109, "b=0 over p=1 mod 4 (full 2-torsion possible)")
 # 8-bit prime: the modulus fills its top byte, so serialization flags need an extra byte (no shipped TE curve has this shape)
 find_sw("SwP251", 251, 1, '>1', "a!=0 over the 8-bit prime 251 (no spare bit in the top byte), cofactor>1", rmin=13)
 find_sw("SwP251P", 251, 1, 1, "a!=0 over the 8-bit prime 251, prime order")
